@@ -2,3 +2,8 @@
 export GOFLAGS=-mod=mod GOPROXY=off GOSUMDB=off GOTOOLCHAIN=local CGO_ENABLED=1
 export VERIF_ROOT="${VERIF_ROOT:-/verif}"
 export REPO_ROOT="${REPO_ROOT:-/repo}"
+# The harness builds replace a file inside the module cache (aspect-core/djpm/run/runner.go) through -overlay. The go
+# command's module index (kept in the shared GOCACHE, keyed by the immutable module-cache path) must never be written
+# from such a build: a later plain build of /repo would read the stub's import list for the real file and fail with
+# "could not import strings". goindex=0 makes every go invocation of the harness neither read nor write that index.
+export GODEBUG="${GODEBUG:+$GODEBUG,}goindex=0"
